@@ -22,6 +22,15 @@ const l8base = `module m { yang-version 1.1; namespace "urn:m"; prefix m;
  grouping g { container gc { leaf gl { type string; } } }
 `
 
+var l8bodies = []string{
+	`augment "%s" { leaf z { type string; } }`,
+	`deviation "%s" { deviate not-supported; }`,
+	`deviation "%s" { deviate replace { type int8; } }`,
+	`leaf lr { type leafref { path "%s"; } }`,
+	`container u { uses g { refine "%s" { description d; } augment "%s" { leaf z { type string; } } } }`,
+	`list l2 { key "%s"; unique "%s"; leaf k { type string; } }`,
+}
+
 func l8shards() []string {
 	var out []string
 	for i := range l8alpha {
@@ -52,14 +61,7 @@ func l8(c *core.Ctx, first int, emit func(in Input)) {
 			flush()
 		}
 		if n <= argLen && !strings.Contains(p, `"`) {
-			for _, body := range []string{
-				`augment "%s" { leaf z { type string; } }`,
-				`deviation "%s" { deviate not-supported; }`,
-				`deviation "%s" { deviate replace { type int8; } }`,
-				`leaf lr { type leafref { path "%s"; } }`,
-				`container u { uses g { refine "%s" { description d; } augment "%s" { leaf z { type string; } } } }`,
-				`list l2 { key "%s"; unique "%s"; leaf k { type string; } }`,
-			} {
+			for _, body := range l8bodies {
 				emit(Input{Files: []File{{Name: "m.yang", Text: l8base + " " + strings.ReplaceAll(body, "%s", p) + "\n}"}}})
 			}
 		}
@@ -72,4 +74,14 @@ func l8(c *core.Ctx, first int, emit func(in Input)) {
 	}
 	rec(l8alpha[first], 1)
 	flush()
+	if first == 0 {
+		// the paths of the nodes the module has, written and unwritten (an rpc's output), as arguments
+		for _, p := range []string{"/m:c", "/m:c/m:x", "/m:c/m:li", "/m:c/m:li/m:k", "/m:c/m:input", "/m:c/m:input/m:output", "/m:ra", "/m:ra/m:input",
+			"/m:ra/m:input/m:z", "/m:ra/m:output", "/m:ra/m:output/m:z", "/m:ch", "/m:ch/m:a", "/m:ch/m:b", "/m:ch/m:b/m:bl", "/m:ch/m:a/m:a", "/c/x", "/m:c/x", "gc", "gc/gl"} {
+			for _, body := range l8bodies {
+				emit(Input{Files: []File{{Name: "m.yang", Text: l8base + " " + strings.ReplaceAll(body, "%s", p) + "\n}"}}})
+				emit(Input{Files: []File{{Name: "m.yang", Text: l8base + " " + strings.ReplaceAll(body, "%s", p) + " " + strings.ReplaceAll(body, "%s", p) + "\n}"}}})
+			}
+		}
+	}
 }
